@@ -400,6 +400,7 @@ structure OutputR where
   before : List (Nat × Nat)     -- Status(cid) before (mode e) / StatusAll(0) before (mode a)
   answer : List (Nat × Nat)     -- Recover(cid) for every CID / RecoverAll()
   after : List (Nat × Nat)      -- Status(cid) after each Recover / StatusAll(0) after RecoverAll
+  errText : List (Nat × Nat)    -- (cid, 1 if the answer's Error text is non-empty else 0)
   deriving Repr
 
 def recoverable (s : Nat) : Bool := s == stPinError || s == stUnpinError || s == stUnexpectedlyUnpinned
@@ -411,7 +412,8 @@ def clausesR (o : OutputR) : List (String × Bool) :=
     ("rc_same_cids", o.answer.map (·.1) == o.before.map (·.1)),
     ("rc_error_retried", o.answer.all (fun e => match lookup o.before e.1 with
         | some s0 => if recoverable s0 then !recoverable e.2 && !(e.2 == s0) else progressed s0 e.2
-        | none => false)) ]
+        | none => false)),
+    ("rc_error_text", o.answer.all (fun e => (lookup o.errText e.1 == some 1) == isErr e.2)) ]
 
 def holdsR (o : OutputR) : Bool := (clausesR o).all (·.2)
 
